@@ -317,7 +317,7 @@ for mask in range(32):
             # every order with the struct-variant shape; every 5th order for the other shapes of `parameters`
             if mask & 1 and case != 2 and o % 5 != case:
                 continue
-            add("C05", "p05::call_decode_m%02d_o%03d_c%d" % (mask, o, case), Q if (mask, o, case) in C05_CALL_QUICK else T, 240, 6, build="prod",
+            add("C05", "p05::call_decode_m%02d_o%03d_c%d" % (mask, o, case), Q if (mask, o, case) in C05_CALL_QUICK else T, 900, 6, build="prod",
                 body="crate::p05::call_decode_order::<%d, %d, %d>" % (mask, o, case), unwind=50, batch=16,
                 inputs="Call<Meth> decoded from an object with members {%s} in permutation #%d of them%s; method name symbolic among 3 declared + 1 undeclared, each present flag a symbolic bool, x symbolic in {number, null, object}, u32 field value symbolic" % (
                     ", ".join(members), o, ", parameters = " + CALL_CASES[case] if mask & 1 else ""),
@@ -328,7 +328,7 @@ for mask in range(16):
     for o in range(factorial(k)):
         if k >= 5 and o % 11 != 0:
             continue   # 5 and 6 members: every 11th order (all orders of <= 4 members)
-        add("C05", "p05::call_strict_m%02d_o%03d" % (mask, o), Q if (mask, o) in ((15, 0), (15, 715), (8, 3), (0, 1)) else T, 240, 6, build="prod",
+        add("C05", "p05::call_strict_m%02d_o%03d" % (mask, o), Q if (mask, o) in ((15, 0), (15, 715), (8, 3), (0, 1)) else T, 900, 6, build="prod",
             body="crate::p05::call_decode_strict::<%d, %d>" % (mask, o), unwind=50, batch=16,
             inputs="Call<Strict> (method type with deny_unknown_fields) from {method, parameters, %s} in permutation #%d; flag values and the unknown member's value symbolic" % (", ".join(n for i, n in enumerate(NAMES_S) if mask >> i & 1), o),
             bound=C05_B, role="call_decode_strict")
@@ -339,14 +339,14 @@ for mask in range(4):
     k = 1 + popcount(mask)
     for o in range(factorial(k)):
         for case in (range(6) if mask & 1 else range(2)):
-            add("C05", "p05::service_method_m%d_o%d_c%d" % (mask, o, case), Q if (o + case) % 2 == 0 else T, 240, 6, build="prod",
+            add("C05", "p05::service_method_m%d_o%d_c%d" % (mask, o, case), Q if (o + case) % 2 == 0 else T, 900, 6, build="prod",
                 body="crate::p05::service_method_decode::<%d, %d, %d>" % (mask, o, case), unwind=50, batch=8,
                 inputs="Call<varlink_service::Method> for %s from method + {%s} in permutation #%d%s; flag value and interface name byte symbolic" % (
                     SM_CASES[case % 2], ", ".join(n for i, n in enumerate(["parameters", "more"]) if mask >> i & 1), o,
                     ", parameters = " + SP3[case // 2] if mask & 1 else ""),
                 bound=C05_B, role="service_method_decode")
         for case in (range(6) if mask & 1 else (0,)):
-            add("C05", "p05::error_decode_m%d_o%d_c%d" % (mask, o, case), Q if (o + case) % 2 == 0 else T, 240, 6, build="prod",
+            add("C05", "p05::error_decode_m%d_o%d_c%d" % (mask, o, case), Q if (o + case) % 2 == 0 else T, 900, 6, build="prod",
                 body="crate::p05::error_decode_order::<%d, %d, %d>" % (mask, o, case), unwind=50, batch=8,
                 inputs="ReplyError-derived enum (unit, struct, renamed-field, borrowed+Option variants, undeclared name; symbolic) from error + {%s} in permutation #%d%s; field values symbolic" % (
                     ", ".join(n for i, n in enumerate(["parameters", "x"]) if mask >> i & 1), o, ", parameters = " + ERR_CASES[case] if mask & 1 else ""),
@@ -355,7 +355,7 @@ SE = ["PermissionDenied", "ExpectedMore", "MethodNotFound"]
 for mask in range(2):
     for o in range(factorial(1 + mask)):
         for case in (range(9) if mask else range(3)):
-            add("C05", "p05::service_error_m%d_o%d_c%d" % (mask, o, case), Q if (o + case) % 2 == 0 else T, 240, 6, build="prod",
+            add("C05", "p05::service_error_m%d_o%d_c%d" % (mask, o, case), Q if (o + case) % 2 == 0 else T, 900, 6, build="prod",
                 body="crate::p05::service_error_decode::<%d, %d, %d>" % (mask, o, case), unwind=50, batch=8,
                 inputs="varlink_service::Error %s from error%s in permutation #%d%s" % (SE[case % 3], " + parameters" if mask else "", o, ", parameters = " + SP3[case // 3] if mask else ""),
                 bound=C05_B, role="service_error_decode")
